@@ -99,18 +99,20 @@ int main(void) {
                     staticMem = malloc(need + 64); cctx = ZSTD_initStaticCCtx((void*)(((size_t)staticMem + 63) & ~(size_t)63), need);
                     if (!cctx) { printf("skip static-init-null\n"); fail = 2; break; }
                 } else cctx = ZSTD_createCCtx();
-                if (run == 1 && (!strcmp(variant, "hist") || !strcmp(variant, "poison"))) {
+                if (run == 1 && (!strcmp(variant, "hist") || !strcmp(variant, "histnr") || !strcmp(variant, "poison"))) {
+                    int const noreset = !strcmp(variant, "histnr");   /* only COMPLETED frames before, and no session reset afterwards */
                     /* prior history on this context */
                     int k, nprev = !strcmp(variant, "poison") ? 1 : 1 + (int)(vseed % 4); rs = vseed;
                     for (k = 0; k < nprev; k++) {
-                        size_t pn = 1000 + rnd() % 300000; unsigned char* pd = (unsigned char*)malloc(pn); unsigned kind = rnd() % 5; unsigned long long keep = rs; size_t pc = ZSTD_compressBound(pn); unsigned char* po = (unsigned char*)malloc(pc);
+                        size_t pn = 1000 + rnd() % 300000; unsigned char* pd = (unsigned char*)malloc(pn); unsigned kind = noreset ? 2 + rnd() % 3 : rnd() % 5; unsigned long long keep = rs; size_t pc = ZSTD_compressBound(pn); unsigned char* po = (unsigned char*)malloc(pc);
                         gen_data(pd, pn, vseed + 7 * (unsigned)k, 0); rs = keep;
-                        ZSTD_CCtx_reset(cctx, ZSTD_reset_session_and_parameters);
+                        ZSTD_CCtx_reset(cctx, noreset ? ZSTD_reset_parameters : ZSTD_reset_session_and_parameters);
                         ZSTD_CCtx_setParameter(cctx, ZSTD_c_compressionLevel, (int)(rnd() % 19) + 1);
                         if (rnd() % 3 == 0) ZSTD_CCtx_setParameter(cctx, ZSTD_c_windowLog, 10 + (int)(rnd() % 10));
                         if (rnd() % 4 == 0) ZSTD_CCtx_loadDictionary(cctx, pd, pn / 3);
                         if (kind == 0) { ZSTD_compress2(cctx, po, pc / 4, pd, pn); }                                /* failed operation: destination too small */
                         else if (kind == 1) { ZSTD_inBuffer ib = { pd, pn / 2, 0 }; ZSTD_outBuffer ob = { po, pc, 0 }; ZSTD_compressStream2(cctx, &ob, &ib, ZSTD_e_continue); }   /* aborted stream */
+                        else if (kind == 2) ZSTD_compressCCtx(cctx, po, pc, pd, pn, (int)(rnd() % 12) + 1);                 /* simple API */
                         else ZSTD_compress2(cctx, po, pc, pd, pn);
                         free(pd); free(po);
                     }
@@ -123,7 +125,7 @@ int main(void) {
                         if (ms->chainTable && ZSTD_allocateChainTable(cctx->appliedParams.cParams.strategy, cctx->appliedParams.useRowMatchFinder, 0)) for (t = 0; t < cS; t++) ms->chainTable[t] = hi ? rnd() % hi : 0;
                         if (ms->hashTable3) for (t = 0; t < h3; t++) ms->hashTable3[t] = hi ? rnd() % hi : 0;
                     }
-                    ZSTD_CCtx_reset(cctx, ZSTD_reset_session_and_parameters);
+                    ZSTD_CCtx_reset(cctx, noreset ? ZSTD_reset_parameters : ZSTD_reset_session_and_parameters);
                 }
                 strncpy(pcopy, ps, sizeof pcopy - 1); pcopy[sizeof pcopy - 1] = 0; save = NULL;
                 for (kv = strtok_r(pcopy, ",", &save); kv && !ZSTD_isError(r); kv = strtok_r(NULL, ",", &save)) { int id, val; if (sscanf(kv, "%d=%d", &id, &val) == 2) { if (id == 400) workers = val; r = ZSTD_CCtx_setParameter(cctx, (ZSTD_cParameter)id, val); } }
